@@ -13,6 +13,8 @@ text of the operation tuple) and checks, on every implementation observation,
   * every reported state, ledger value and predicate of every id against the ghost log,
   * that the target was invoked exactly once, with the scheduled function and argument, by an
     accepted `execute` and by nothing else,
+  * that nothing stored changes while the ledger advances (idle gaps of up to 100 days):
+    only Waiting → Ready by time,
   * that a rejected call changed nothing,
   * id-equality ⇔ tuple-equality for every defined operation.
 -/
@@ -238,8 +240,20 @@ def check (m : Mon) (opl obs : String) : Mon × Option String :=
       match kind with
       | "advance" =>
         let n := (kvNat? rest "n").getD 0
+        -- across an idle gap nothing stored may change: only Waiting → Ready, by time, same ledger value
+        let prevSt := match m.prev with | some p => p.st | none => []
+        let lost := (List.range prevSt.length).filterMap (fun i =>
+          match prevSt[i]?, o.st[i]? with
+          | some a, some b =>
+            if a = b then none
+            else if a.code = "W" ∧ b.code = "R" ∧ a.ledger = b.ledger ∧ b.ledger ≤ o.now then none
+            else some s!"site=timelock.idle.lost id {(universeKeys m)[i]?.getD "?"}: {a.code}:{a.ledger} before an idle gap of {n} ledgers, {b.code}:{b.ledger} after it"
+          | _, _ => none)
         fin m (if o.now ≠ prevNow + n then some "site=timelock.advance ledger not advanced as requested"
-               else if o.min ≠ prevMin then some "site=timelock.min the minimum delay changed with time" else callsSame)
+               else if o.min ≠ prevMin then some s!"site=timelock.idle.lost the minimum delay changed over an idle gap of {n} ledgers"
+               else match lost with
+                 | w :: _ => some w
+                 | [] => callsSame)
       | "min" =>
         fin m (if o.min ≠ kvNat? rest "d" then some "site=timelock.min minimum delay not stored" else stable.orElse (fun _ => callsSame))
       | "sched" =>
